@@ -222,6 +222,18 @@ def generate():
         out.append(f'Definition {ident} : cfg := {cfg_term(data, intern)}.')
         terms.append(ident)
     out.append('Definition shipped_cfgs : list cfg := [' + '; '.join(terms) + '].')
+    # what the harness reads out of the same files when it assembles the environments by hand (envs.desc_of_data): types, colours, actions, and the
+    # registry indices of the five components -- cross-checked against the model's construction of the tree by the kernel (Lemmas/C17T.v)
+    rows = []
+    for (fname, data, desc), ident in zip(envs.shipped_envs(), terms):
+        def idx(fk, name):
+            return list(signatures.REGISTRIES[fk][1].keys()).index(name)
+        comp_idx = [idx(0, data['reset_function']['name']), idx(1, 'chain'), idx(2, 'reduce_sum'), idx(3, data['observation_function']['name']),
+                    idx(5, data['terminating_function']['name'])]
+        kids = [[idx(1, t['name']) for t in data['transition_functions']], [idx(2, t['name']) for t in data['reward_functions']]]
+        rows.append(f'({ident}, ({zl(desc["state_types"])}, {zl(desc["state_colors"])}, {zl(desc["actions"])}, {zl(desc["obs_types"])}, {zl(desc["obs_colors"])}, '
+                    f'{zl(comp_idx)}, {zl(kids[0])}, {zl(kids[1])}))')
+    out.append('Definition shipped_described : list (cfg * (list Z * list Z * list Z * list Z * list Z * list Z * list Z * list Z)) := [' + '; '.join(rows) + '].')
     if intern.fresh:
         out.append(f'(* strings of shipped files outside the table: {sorted(intern.fresh)} *)')
     return '\n'.join(out) + '\n'
